@@ -89,6 +89,42 @@ def build_harness(ctx):
     return out, log
 
 
+def build_harness_race(ctx):
+    """harness built with the race detector (cgo); cached per tree hash"""
+    bindir = os.path.join(CACHE, 'bin'); os.makedirs(bindir, exist_ok=True)
+    out = os.path.join(bindir, 'hrace-' + ctx.hash)
+    if os.path.exists(out):
+        return out, ''
+    hd = os.path.join(VERIF, 'harness')
+    shutil.copyfile(os.path.join(REPO, 'go.sum'), os.path.join(hd, 'go.sum'))
+    env = dict(GOENV, CGO_ENABLED='1')
+    rc, log = sh(['go', 'build', '-race', '-tags', 'verif', '-o', out, '.'], cwd=hd, env=env, timeout=900)
+    if rc != 0:
+        return None, log
+    for old in glob.glob(os.path.join(bindir, 'hrace-*')):
+        if old != out and time.time() - os.path.getmtime(old) > 3600:
+            os.remove(old)
+    return out, log
+
+
+def conc_run(ctx, rounds):
+    """concurrent workloads under the race detector -> (lines, race_reports, stderr)"""
+    tag = os.path.join(ctx.dir, 'conc-%d.txt' % rounds)
+    if os.path.exists(tag):
+        d = json.load(open(tag))
+        return d['lines'], d['races'], d['stderr']
+    hb, log = build_harness_race(ctx)
+    if hb is None:
+        ctx.violations.append(('race-enabled harness does not build', write_replay(ctx, 'harness_build.txt', log[-6000:]), False))
+        return None, 0, ''
+    p = subprocess.run([hb, 'conc', '-seed', str(ctx.seed), '-n', str(rounds)], stdout=subprocess.PIPE, stderr=subprocess.PIPE,
+                       text=True, timeout=3600, env=dict(os.environ, GORACE='halt_on_error=0'))
+    lines = [l for l in p.stdout.split('\n') if l.startswith('conc ')]
+    races = p.stderr.count('WARNING: DATA RACE')
+    json.dump({'lines': lines, 'races': races, 'stderr': p.stderr[-8000:]}, open(tag, 'w'))
+    return lines, races, p.stderr[-8000:]
+
+
 def lean_build(targets=('Nject', 'NjectGen', 'NjectProofs', 'NjectProps', 'njmodel')):
     rc, log = sh(['lake', 'build'] + list(targets), cwd=LEAN, timeout=3600)
     return rc == 0, log
